@@ -207,7 +207,8 @@ def _play(obs, cls, spec, script, reqs, record_only=False):
                 first_in_epoch = False
             if vec and kind in ("f", "C"):
                 obs.count("batch_requests")
-                pts = [p, (p + 1) % 3]
+                # (the second member varies from request to request: consecutive populations may share a member at the same row)
+                pts = [p, (p + 1 + len(out) % 2) % 3]
                 if len(out) % 3 == 2:
                     xb = POOL[pts].T.copy()      # (V, S), a fresh array as SciPy's DE hands over
                 else:
